@@ -105,6 +105,10 @@ def check(gen_dir, out_dir, only=None):
                 counters['files_also_read_by_path'] = counters.get('files_also_read_by_path', 0) + 1
                 if m['typed'] >= 1 and 'path_typed' in d:
                     routes.append(('path_typed', d['path_typed'].get('ok'), d['path_typed'].get('err')))
+                if 'path_read_pairs' in d:
+                    # the complete reader on the foreign file plus a table of n rows: shape i with row i
+                    routes.append(('path_read_pairs', d['path_read_pairs'], None))
+                    counters['files_also_read_through_the_complete_reader'] = counters.get('files_also_read_through_the_complete_reader', 0) + 1
             if m['typed'] >= 1:
                 routes.append(('typed', d['typed'].get('ok'), d['typed'].get('err')))
                 routes.append(('typed_iter', d.get('typed_iter'), None))
